@@ -4,6 +4,8 @@ Line-protocol driver + observed-history checker for the C06 model (`sanc`).
 Ops (one per line, `k=v` arguments; lists `A|B`, `-` empty; coins `5stake,3xcoin`):
   cfg unsanc=… names=… bond=… mindep= expmindep= initmin= initminexp= depmin= depminexp=
       depp= votp= expvotp= cancel=n/d burnq= burnv= burnp= bal0=V:5stake|BOND:7stake
+      (the six deposit parameters are coins, one amount per accepted deposit denom, e.g.
+       `mindep=250acoin,1000stake`; a bare number means that amount of the bond denom)
   submit who= msgs=s:A|B;u:C;s!:D dep= exp=0|1      -> ok <id> | err:<class> | panic:other
   deposit who= id= amt=     vote id= opt=yes|no|veto|abstain     cancel who= id=
   block dt=                 params sanc= unsanc=
@@ -81,14 +83,21 @@ def parseBal0 (s : String) : Option (List (Addr × Coins)) :=
     | [a, cs] => (parseCoins? cs).map fun c => (a, c)
     | _ => none
 
+/-- a deposit parameter: coins, or a bare number of the bond denom -/
+def kvDep (r : List String) (bond : Denom) (k : String) : Option Coins :=
+  match kvInt r k with
+  | some n => some [(bond, n)]
+  | none => kvCoins r k
+
 def parseCfg (r : List String) : Option (Cfg × List (Addr × Coins)) := do
   let (n, d) ← parseRatio (kvD r "cancel" "1/2")
+  let bond := kvD r "bond" "stake"
   let c : Cfg := {
     unsanctionable := splitList (kvD r "unsanc"), names := splitList (kvD r "names"),
-    bond := kvD r "bond" "stake",
-    minDeposit := ← kvInt r "mindep", expMinDeposit := ← kvInt r "expmindep",
-    initMin := ← kvInt r "initmin", initMinExp := ← kvInt r "initminexp",
-    depMin := ← kvInt r "depmin", depMinExp := ← kvInt r "depminexp",
+    bond := bond,
+    minDeposit := ← kvDep r bond "mindep", expMinDeposit := ← kvDep r bond "expmindep",
+    initMin := ← kvDep r bond "initmin", initMinExp := ← kvDep r bond "initminexp",
+    depMin := ← kvDep r bond "depmin", depMinExp := ← kvDep r bond "depminexp",
     depositPeriod := ← kvNat r "depp", votingPeriod := ← kvNat r "votp", expVotingPeriod := ← kvNat r "expvotp",
     cancelNum := n, cancelDen := d,
     burnQuorum := kvD r "burnq" "0" = "1", burnVeto := kvD r "burnv" "0" = "1", burnPrevote := kvD r "burnp" "0" = "1" }
@@ -112,9 +121,10 @@ def dump (s : State) : String :=
   let perm := (s.st.perm.mergeSort strLe).map showAddr
   let temp := (s.st.temp.mergeSort tempLe).map fun e => s!"{showAddr e.addr}/{e.id}/{if e.val then "S" else "U"}"
   let idx := (s.st.idx.mergeSort idxLe).map fun e => s!"{e.id}/{showAddr e.addr}"
-  let props := (s.props.mergeSort fun a b => a.id ≤ b.id).map fun p => s!"{p.id}:{statusLetter p.status}:{p.total}"
+  let props := (s.props.mergeSort fun a b => a.id ≤ b.id).map fun p =>
+    s!"{p.id}:{statusLetter p.status}:{showCoins (Coins.canon p.total)}"
   let bal := names.map fun a => s!"{showAddr a}:{showCoins (s.ledger.balances a)}"
-  s!"san={joinOr san} perm={joinOr perm} temp={joinOr temp} idx={joinOr idx} props={joinOr props} next={s.nextId} bal={joinOr bal}"
+  s!"san={joinOr san} perm={joinOr perm} temp={joinOr temp} idx={joinOr idx} props={joinOr props} next={s.nextId} smin={showCoins (Coins.canon s.st.sancMin)} umin={showCoins (Coins.canon s.st.unsancMin)} bal={joinOr bal}"
 
 /-! ### reading the implementation's dump -/
 
@@ -123,8 +133,10 @@ structure Obs where
   perm : List Addr := []
   temp : List TempEntry := []
   idx : List (Nat × Addr) := []
-  props : List (Nat × String) := []
+  props : List (Nat × String × Coins) := []
   next : Nat := 0
+  smin : Coins := []
+  umin : Coins := []
   bal : List (Addr × Coins) := []
 
 def semis (s : String) : List String := splitList s ";"
@@ -146,14 +158,16 @@ def parseObs (impl : String) : Option Obs := do
     | _ => none
   let props ← (semis (kvD ws "props")).mapM fun x =>
     match x.splitOn ":" with
-    | [p, st, _] => (parseNat? p).map fun p => (p, st)
+    | [p, st, tot] => do pure ((← parseNat? p), st, (← parseCoins? tot))
     | _ => none
   let next ← kvNat ws "next"
+  let smin ← kvCoins ws "smin"
+  let umin ← kvCoins ws "umin"
   let bal ← (semis (kvD ws "bal")).mapM fun x =>
     match x.splitOn ":" with
     | [a, cs] => (parseCoins? cs).map fun c => (parseAddr a, c)
     | _ => none
-  pure { san, perm, temp, idx, props, next, bal }
+  pure { san, perm, temp, idx, props, next, smin, umin, bal }
 
 /-! ### key-layout ops (stateless): model output and verdict -/
 
@@ -197,6 +211,10 @@ structure DState where
   /-- operations executed since the last observed dump (the dump describes the state before an
   operation only when this is 0, and the state before the previous operation when it is 1) -/
   since : Nat := 0
+  /-- messages of the proposals the implementation accepted (id as answered by it) -/
+  msgs : List (Nat × List PMsg) := []
+  /-- the proposal of the last operation when that was a submit / deposit the implementation accepted -/
+  lastDep : Option Nat := none
 
 def firstFail (cs : List (Bool × String)) : Option String :=
   (cs.find? (fun c => !c.1)).map (·.2)
@@ -213,12 +231,25 @@ def checkDump (c : Cfg) (d : DState) (o : Obs) : String × DState :=
     | none => true
     | some prev => prev.san.all fun x =>
         !x.2 || Spec.notDecreased ((prev.bal.lookup x.1).getD []) ((o.bal.lookup x.1).getD [])
-  let fates := o.temp.map fun e => (e.id, Spec.fate o.props d.cancelled o.next e.id)
+  -- a temporary entry that was not there one operation ago needs a deposit reaching the threshold
+  let newOk := match (if d.since ≤ 1 then d.obs else none) with
+    | none => true
+    | some prev => o.temp.all fun e => prev.temp.contains e || Spec.newEntryJustified o.props o.smin o.umin e
+  -- an accepted deposit that reaches a threshold leaves the entries of that message
+  let depOk := match (if d.since = 1 then d.lastDep else none) with
+    | none => true
+    | some id =>
+      match o.props.find? (fun p => p.1 == id), d.msgs.lookup id with
+      | some (_, _, total), some msgs => Spec.reachedEntriesPresent o.temp id msgs total o.smin o.umin
+      | _, _ => true
+  let fates := o.temp.map fun e => (e.id, Spec.fate (o.props.map fun p => (p.1, p.2.1)) d.cancelled o.next e.id)
   let badFate := fates.find? fun f => f.2 != .live && f.2 != .cancelled
   let newCancel := fates.find? fun f => f.2 == .cancelled && !d.reported.contains f.1
   let d' := { d with obs := some o, since := 0 }
   match firstFail [(unsOk, "unsanctionable_sanctioned"), (ruleOk, "latest_entry_rule"),
-                   (idxOk, "index_mirrors_temp"), (balOk, "sanctioned_balance_decreased")] with
+                   (idxOk, "index_mirrors_temp"), (balOk, "sanctioned_balance_decreased"),
+                   (newOk, "temp_without_deposit_reaching_threshold"),
+                   (depOk, "deposit_reaching_threshold_without_temp")] with
   | some cl => ("fail:" ++ cl, d')
   | none =>
     match badFate with
@@ -284,7 +315,19 @@ def stepLine (d : DState) (line : String) (impl : Option String) : DState × Str
       let cancelled := match impl, cancelId op with
         | some i, some id => if i.startsWith "ok" then id :: d.cancelled else d.cancelled
         | _, _ => d.cancelled
-      ({ d with s := s', cancelled := cancelled, since := d.since + 1 }, out, verdict)
+      let okId : Option Nat := match impl with
+        | some i =>
+          if i.startsWith "ok" then
+            match op with
+            | .submit .. => (words i).getLast? >>= parseNat?
+            | .deposit _ id _ => some id
+            | _ => none
+          else none
+        | none => none
+      let msgs := match op, okId with
+        | .submit _ ms _ _, some id => (id, ms) :: d.msgs
+        | _, _ => d.msgs
+      ({ d with s := s', cancelled := cancelled, since := d.since + 1, msgs := msgs, lastDep := okId }, out, verdict)
 
 def driver : Driver where
   σ := DState
